@@ -3,11 +3,131 @@ package codec
 import (
 	"fmt"
 	"go/ast"
+	"go/token"
 	"go/types"
 	"strings"
 
+	"golang.org/x/tools/go/packages"
+
 	"verif/checker/internal/core"
 )
+
+// depthExprOK: the RecursionLimit expression is f(input.Depth) for a runtime function f whose body, evaluated by
+// the checker for every relevant class of depth (<=0, 1, 2, large), returns a non-zero value < depth (for depth >= 1).
+func depthExprOK(p *packages.Package, fns map[string]*ast.FuncDecl, v string) bool {
+	v = strings.ReplaceAll(v, " ", "")
+	i := strings.Index(v, "(input.Depth)")
+	if i <= 0 || i+len("(input.Depth)") != len(v) {
+		return false
+	}
+	fd := fns[v[:i]]
+	if fd == nil || fd.Body == nil || len(fd.Type.Params.List) != 1 || len(fd.Type.Params.List[0].Names) != 1 {
+		return false
+	}
+	param := fd.Type.Params.List[0].Names[0].Name
+	for _, d := range []int64{-3, 0, 1, 2, 3, 10000, 1 << 40} {
+		r, ok := evalIntFunc(p.TypesInfo, fd.Body.List, map[string]int64{param: d})
+		if !ok || r == 0 {
+			return false
+		}
+		if d >= 1 && r >= d {
+			return false
+		}
+		if d <= 0 && r > 0 {
+			return false
+		}
+	}
+	return true
+}
+
+// evalIntFunc interprets `if <cmp> { return e }; return e` bodies over integers.
+func evalIntFunc(info *types.Info, list []ast.Stmt, env map[string]int64) (int64, bool) {
+	var evalE func(x ast.Expr) (int64, bool)
+	evalE = func(x ast.Expr) (int64, bool) {
+		x = ast.Unparen(x)
+		if k, ok := constInt(info, x); ok {
+			return k, true
+		}
+		switch t := x.(type) {
+		case *ast.Ident:
+			v, ok := env[t.Name]
+			return v, ok
+		case *ast.UnaryExpr:
+			if t.Op == token.SUB {
+				v, ok := evalE(t.X)
+				return -v, ok
+			}
+		case *ast.BinaryExpr:
+			l, ok1 := evalE(t.X)
+			r, ok2 := evalE(t.Y)
+			if !ok1 || !ok2 {
+				return 0, false
+			}
+			switch t.Op {
+			case token.ADD:
+				return l + r, true
+			case token.SUB:
+				return l - r, true
+			}
+		}
+		return 0, false
+	}
+	evalC := func(x ast.Expr) (bool, bool) {
+		be, ok := ast.Unparen(x).(*ast.BinaryExpr)
+		if !ok {
+			return false, false
+		}
+		l, ok1 := evalE(be.X)
+		r, ok2 := evalE(be.Y)
+		if !ok1 || !ok2 {
+			return false, false
+		}
+		switch be.Op {
+		case token.LSS:
+			return l < r, true
+		case token.LEQ:
+			return l <= r, true
+		case token.GTR:
+			return l > r, true
+		case token.GEQ:
+			return l >= r, true
+		case token.EQL:
+			return l == r, true
+		case token.NEQ:
+			return l != r, true
+		}
+		return false, false
+	}
+	for _, s := range list {
+		switch t := s.(type) {
+		case *ast.ReturnStmt:
+			if len(t.Results) != 1 {
+				return 0, false
+			}
+			return evalE(t.Results[0])
+		case *ast.IfStmt:
+			if t.Init != nil {
+				return 0, false
+			}
+			c, ok := evalC(t.Cond)
+			if !ok {
+				return 0, false
+			}
+			if c {
+				return evalIntFunc(info, t.Body.List, env)
+			}
+			if t.Else != nil {
+				if b, ok := t.Else.(*ast.BlockStmt); ok {
+					return evalIntFunc(info, b.List, env)
+				}
+				return 0, false
+			}
+		default:
+			return 0, false
+		}
+	}
+	return 0, false
+}
 
 // RunOpts decides the option-mapping table of runtime.*InputToOptions.
 func RunOpts(c *core.Ctx) {
@@ -46,7 +166,7 @@ func RunOpts(c *core.Ctx) {
 			{"Resolver", func(v string) bool { return v == "input.Resolver" }, "input.Resolver", "OPTS.map"},
 			{"AllowPartial", func(v string) bool { return v == "true" }, "true", "OPTS.map"},
 			{"Merge", func(v string) bool { return v == "true" }, "true: a nested decode continues a message the parent kept or just allocated, it must not reset it", "OPTS.merge"},
-			{"RecursionLimit", func(v string) bool { return strings.Contains(v, "input.Depth") }, "derived from input.Depth, so the nesting budget of the outer decode carries into nested decodes", "OPTS.depth"},
+			{"RecursionLimit", func(v string) bool { return depthExprOK(p, fns, v) }, "a value that is smaller than input.Depth whenever input.Depth > 0 and never 0 (0 means 'default' to proto.UnmarshalOptions), so the nesting budget of the outer decode shrinks at every level", "OPTS.depth"},
 		},
 	}
 	for fn, ws := range tables {
